@@ -26,13 +26,10 @@
    returns [Fuel] when it runs out.  Each loop is entered with the caller's whole budget
    [fuel]; Proofs/AutoSqlTotal.v shows that [length data + AUTOSQL_DECL_CAP + 2] is always
    enough.  Errors are the class codes [E_*] (the variant index of [ParseError], from 1). *)
-From Coq Require Import String Ascii.
 From BT Require Import Base.Util Generated.Consts.
 Local Open Scope nat_scope.
 
 (* ------------------------------------------------------------------ characters and strings *)
-
-Definition bs (s : string) : list N := map N_of_ascii (list_ascii_of_string s).
 
 Definition is_ws (c : N) : bool := ((9 <=? c) && (c <=? 13) || (c =? 32))%N.
 Definition is_word_delimiter (c : N) : bool :=
@@ -47,6 +44,36 @@ Fixpoint beq (a b : list N) : bool :=
   | x :: a', y :: b' => N.eqb x y && beq a' b'
   | _, _ => false
   end.
+
+(* keywords and punctuation the parser compares against, as character lists (Coq's [string] is not used in
+   Model files because the shared extraction driver reserves that type name); Proofs/AutoSqlLex.v checks
+   each against its spelling. *)
+Definition K_lparen : list N := [40]%N.   (* ( *)
+Definition K_rparen : list N := [41]%N.   (* ) *)
+Definition K_semi : list N := [59]%N.   (* ; *)
+Definition K_lbrack : list N := [91]%N.   (* [ *)
+Definition K_rbrack : list N := [93]%N.   (* ] *)
+Definition K_int : list N := [105; 110; 116]%N.   (* int *)
+Definition K_set : list N := [115; 101; 116]%N.   (* set *)
+Definition K_auto : list N := [97; 117; 116; 111]%N.   (* auto *)
+Definition K_byte : list N := [98; 121; 116; 101]%N.   (* byte *)
+Definition K_char : list N := [99; 104; 97; 114]%N.   (* char *)
+Definition K_enum : list N := [101; 110; 117; 109]%N.   (* enum *)
+Definition K_uint : list N := [117; 105; 110; 116]%N.   (* uint *)
+Definition K_float : list N := [102; 108; 111; 97; 116]%N.   (* float *)
+Definition K_index : list N := [105; 110; 100; 101; 120]%N.   (* index *)
+Definition K_short : list N := [115; 104; 111; 114; 116]%N.   (* short *)
+Definition K_table : list N := [116; 97; 98; 108; 101]%N.   (* table *)
+Definition K_ubyte : list N := [117; 98; 121; 116; 101]%N.   (* ubyte *)
+Definition K_bigint : list N := [98; 105; 103; 105; 110; 116]%N.   (* bigint *)
+Definition K_double : list N := [100; 111; 117; 98; 108; 101]%N.   (* double *)
+Definition K_object : list N := [111; 98; 106; 101; 99; 116]%N.   (* object *)
+Definition K_simple : list N := [115; 105; 109; 112; 108; 101]%N.   (* simple *)
+Definition K_string : list N := [115; 116; 114; 105; 110; 103]%N.   (* string *)
+Definition K_unique : list N := [117; 110; 105; 113; 117; 101]%N.   (* unique *)
+Definition K_ushort : list N := [117; 115; 104; 111; 114; 116]%N.   (* ushort *)
+Definition K_lstring : list N := [108; 115; 116; 114; 105; 110; 103]%N.   (* lstring *)
+Definition K_primary : list N := [112; 114; 105; 109; 97; 114; 121]%N.   (* primary *)
 
 (* ------------------------------------------------------------------ ParseError classes *)
 
@@ -199,21 +226,21 @@ Definition eat_quoted_string (fuel : nat) (p : parser) : res (list N * parser) :
 Definition parse_index_auto (fuel : nat) (p : parser) : res ((option index_type * bool) * parser) :=
   do (next_word, p1) <- peek_word fuel p;
   do (index_type, p2) <-
-    (if beq next_word (bs "primary") then do (_, q) <- eat_word fuel p1; Ok (Some Primary, q)
-     else if beq next_word (bs "index") then
+    (if beq next_word K_primary then do (_, q) <- eat_word fuel p1; Ok (Some Primary, q)
+     else if beq next_word K_index then
        do (_, q) <- eat_word fuel p1;
        do (next, q1) <- peek_one fuel q;
-       if beq next (bs "[") then
+       if beq next K_lbrack then
          do (_, q2) <- eat_one fuel q1;
          do (size, q3) <- eat_word fuel q2;
          do (close, q4) <- eat_one fuel q3;
-         if negb (beq close (bs "]")) then Err E_InvalidIndexSizeBrackets
+         if negb (beq close K_rbrack) then Err E_InvalidIndexSizeBrackets
          else Ok (Some (Index (Some size)), q4)
        else Ok (Some (Index None), q1)
-     else if beq next_word (bs "unique") then do (_, q) <- eat_word fuel p1; Ok (Some Unique, q)
+     else if beq next_word K_unique then do (_, q) <- eat_word fuel p1; Ok (Some Unique, q)
      else Ok (None, p1));
   do (next_word2, p3) <- peek_word fuel p2;
-  if beq next_word2 (bs "auto") then do (_, q) <- eat_word fuel p3; Ok ((index_type, true), q)
+  if beq next_word2 K_auto then do (_, q) <- eat_word fuel p3; Ok ((index_type, true), q)
   else Ok ((index_type, false), p3).
 
 (* DeclareName::parse *)
@@ -232,12 +259,12 @@ Fixpoint values_loop (lf fuel : nat) (p : parser) (values : list (list N)) : res
   | O => Fuel
   | S f =>
     do (value, p1) <- eat_word fuel p;
-    if beq value (bs ")") then Ok (values, p1)
+    if beq value K_rparen then Ok (values, p1)
     else if match value with [] => true | _ => false end then Err E_InvalidFieldValuesBrackets
     else
       let values' := values ++ [value] in
       do (close, p2) <- eat_one fuel p1;
-      if beq close (bs ")") then Ok (values', p2)
+      if beq close K_rparen then Ok (values', p2)
       else values_loop f fuel p2 values'
   end.
 
@@ -249,23 +276,23 @@ Inductive type_word :=
 | WDecl (dt : decl_type)                            (* "simple" / "object" / "table" *)
 | WOther.                                           (* _ => return Ok(None) *)
 Definition classify_type_word (lw : list N) : type_word :=
-  if beq lw (bs "int") then WBasic TInt
-  else if beq lw (bs "uint") then WBasic TUint
-  else if beq lw (bs "short") then WBasic TShort
-  else if beq lw (bs "ushort") then WBasic TUshort
-  else if beq lw (bs "byte") then WBasic TByte
-  else if beq lw (bs "ubyte") then WBasic TUbyte
-  else if beq lw (bs "float") then WBasic TFloat
-  else if beq lw (bs "double") then WBasic TDouble
-  else if beq lw (bs "char") then WBasic TChar
-  else if beq lw (bs "string") then WBasic TString
-  else if beq lw (bs "lstring") then WBasic TLstring
-  else if beq lw (bs "bigint") then WBasic TBigint
-  else if beq lw (bs "enum") then WValues TEnum
-  else if beq lw (bs "set") then WValues TSet
-  else if beq lw (bs "simple") then WDecl Simple
-  else if beq lw (bs "object") then WDecl Object
-  else if beq lw (bs "table") then WDecl Object                 (* sic: the Rust code records Object *)
+  if beq lw K_int then WBasic TInt
+  else if beq lw K_uint then WBasic TUint
+  else if beq lw K_short then WBasic TShort
+  else if beq lw K_ushort then WBasic TUshort
+  else if beq lw K_byte then WBasic TByte
+  else if beq lw K_ubyte then WBasic TUbyte
+  else if beq lw K_float then WBasic TFloat
+  else if beq lw K_double then WBasic TDouble
+  else if beq lw K_char then WBasic TChar
+  else if beq lw K_string then WBasic TString
+  else if beq lw K_lstring then WBasic TLstring
+  else if beq lw K_bigint then WBasic TBigint
+  else if beq lw K_enum then WValues TEnum
+  else if beq lw K_set then WValues TSet
+  else if beq lw K_simple then WDecl Simple
+  else if beq lw K_object then WDecl Object
+  else if beq lw K_table then WDecl Object                 (* sic: the Rust code records Object *)
   else WOther.
 
 Definition try_parse (fuel : nat) (p : parser) : res (option field_type * parser) :=
@@ -275,7 +302,7 @@ Definition try_parse (fuel : nat) (p : parser) : res (option field_type * parser
   | WValues mk =>
     do (_, q) <- take p1;
     do (open_bracket, q1) <- eat_one fuel q;
-    if negb (beq open_bracket (bs "(")) then Err E_InvalidFieldValuesBrackets
+    if negb (beq open_bracket K_lparen) then Err E_InvalidFieldValuesBrackets
     else do (vs, q2) <- values_loop fuel fuel q1 []; Ok (Some (mk vs), q2)
   | WDecl dt =>
     do (_, q) <- take p1;
@@ -295,21 +322,21 @@ Fixpoint field_list_loop (lf fuel : nat) (p : parser) (fields : list field) : re
     | Some ft =>
       do (next_word, p2) <- peek_one fuel p1;
       do (sn, p3) <-
-        (if beq next_word (bs "[") then
+        (if beq next_word K_lbrack then
            do (_, q) <- eat_one fuel p2;
            do (size, q1) <- eat_word fuel q;
            do (close, q2) <- eat_one fuel q1;
-           if negb (beq close (bs "]")) then Err E_InvalidFieldSizeClose
+           if negb (beq close K_rbrack) then Err E_InvalidFieldSizeClose
            else do (name, q3) <- eat_word fuel q2; Ok ((Some size, name), q3)
          else do (name, q) <- eat_word fuel p2; Ok ((None, name), q));
       do (ia, p4) <- parse_index_auto fuel p3;
       do (semicolon, p5) <- eat_one fuel p4;
-      if negb (beq semicolon (bs ";")) then Err E_InvalidFieldCommentSeparater
+      if negb (beq semicolon K_semi) then Err E_InvalidFieldCommentSeparater
       else
         do (comment, p6) <- eat_quoted_string fuel p5;
         let fields' := fields ++ [mkField ft (fst sn) (snd sn) (fst ia) (snd ia) comment] in
         do (nx, p7) <- peek_one fuel p6;
-        if beq nx (bs ")") then Ok (fields', p7)
+        if beq nx K_rparen then Ok (fields', p7)
         else field_list_loop f fuel p7 fields'
     end
   end.
@@ -324,15 +351,15 @@ Definition parse_declaration (fuel : nat) (p : parser) : res (option declaration
     do (dn, p2) <- declare_name_parse fuel p1;
     do (comment, p3) <- eat_quoted_string fuel p2;
     do (opening_bracket, p4) <- eat_one fuel p3;
-    if negb (beq opening_bracket (bs "(")) then Err E_InvalidDeclareBrackets
+    if negb (beq opening_bracket K_lparen) then Err E_InvalidDeclareBrackets
     else
       do (fields, p5) <- parse_field_list fuel p4;
       do (closing_bracket, p6) <- eat_one fuel p5;
-      if negb (beq closing_bracket (bs ")")) then Err E_InvalidDeclareBrackets
+      if negb (beq closing_bracket K_rparen) then Err E_InvalidDeclareBrackets
       else Ok (Some (mkDecl dt dn comment fields), p6) in
-  if beq declare_type (bs "simple") then continue Simple
-  else if beq declare_type (bs "object") then continue Object
-  else if beq declare_type (bs "table") then continue Table
+  if beq declare_type K_simple then continue Simple
+  else if beq declare_type K_object then continue Object
+  else if beq declare_type K_table then continue Table
   else if beq declare_type [] then Ok (None, p1)
   else Err E_InvalidDeclareType.
 
